@@ -26,8 +26,8 @@ EXPECT = {
     "irp_in_serial": "KnownAttributes",
 }
 # mutants per class in the quick tier (thorough: x5)
-CAPS = {"undeclared": 16, "arity": 24, "strat": 22, "rebind": 24, "macro_rec": 24, "nested_include": 5,
-        "ds_on_lattice": 5, "two_ds": 5, "unknown_prog_attr": 5, "unknown_rel_attr": 5, "irp_in_serial": 3}
+CAPS = {"undeclared": 16, "arity": 24, "strat": 22, "rebind": 40, "macro_rec": 24, "nested_include": 5,
+        "ds_on_lattice": 5, "two_ds": 5, "unknown_prog_attr": 10, "unknown_rel_attr": 5, "irp_in_serial": 3}
 DS_RUST = {"rel": "ascent::rel", "eqrel": "ascent_byods_rels::eqrel", "trrel": "ascent_byods_rels::trrel",
            "trrel_uf": "ascent_byods_rels::trrel_uf"}
 UNKNOWN_ATTR = "frobnicate"
@@ -337,6 +337,10 @@ class Gen:
                 new.append(("let", {"t": "let", "p": pvar(v), "e": lit(7)}))
                 new.append(("if let", {"t": "iflet", "p": {"p": "some", "q": pvar(v)}, "e": {"op": "some", "a": lit(7)}}))
                 new.append(("for", {"t": "for", "p": pvar(v), "lo": lit(0), "hi": lit(2)}))
+                # `v @ subpattern` binds v too
+                new.append(("let with @ pattern", {"t": "let", "p": {"p": "at", "n": v, "q": {"p": "wild"}}, "e": lit(7)}))
+                new.append(("if let with @ pattern", {"t": "iflet", "p": {"p": "at", "n": v, "q": {"p": "some", "q": {"p": "wild"}}}, "e": {"op": "some", "a": lit(7)}}))
+                new.append(("for with @ pattern", {"t": "for", "p": {"p": "at", "n": v, "q": {"p": "wild"}}, "lo": lit(0), "hi": lit(2)}))
                 if rint is not None:
                     w = fresh(prog, "rb_w")
                     args = [wild() for _ in rint["cols"]]
@@ -491,7 +495,10 @@ class Gen:
             self.add("unknown_rel_attr", f"on {role}" + (" with ds" if r["ds"] != "-" else ""),
                      f"relation {i} ({r['name']}): #[{UNKNOWN_ATTR}]", p)
         for attrs, k in (([UNKNOWN_ATTR], "alone"), ([UNKNOWN_ATTR, "measure_rule_times"], "before a known attribute"),
-                         (["measure_rule_times", UNKNOWN_ATTR], "after a known attribute")):
+                         (["measure_rule_times", UNKNOWN_ATTR], "after a known attribute"),
+                         ([UNKNOWN_ATTR + "(4)"], "with a list argument"), ([UNKNOWN_ATTR + ' = "1s"'], "as name = value"),
+                         (["measure_rule_times", UNKNOWN_ATTR + "(true)"], "with a list argument after a known attribute"),
+                         (["measure_rule_times(true)"], "known attribute with an argument")):
             p = self.copy()
             p["attrs"] = attrs
             self.add("unknown_prog_attr", k, f"program attributes {attrs}", p)
